@@ -18,12 +18,18 @@ def specs_for(chk, n, profile):
                 'tcat': profile.get('tcat', True)}
         if i % 8 == 5 and profile.get('two_outputs', True):
             opts['two_outputs'] = True
+        if i % 13 == 9 and profile.get('variants', True):
+            opts = {'mlp_res': True}
+        if i % 9 == 7 and profile.get('variants', True):
+            opts['shared_pad'] = True
+        if i % 11 == 8 and profile.get('variants', True):
+            opts['reuse_dw'] = True
         if excl_hint(profile, i):
             opts['cat_tail'] = True
         if profile.get('excl') and i % 7 == 3:
             opts['fixed_cat'] = True
         if profile.get('reuse') and i % 4 == 1:
-            opts['reuse'] = True
+            opts['reuse'] = 'pool' if (i // 4) % 2 == 0 else True     # 'pool': the two call sites at two resolutions
         if profile.get('unsupported') and i % profile.get('unsupported_every', 6) == 0:
             opts['unsupported'] = 'add_cat' if (i // 6) % 2 == 0 else 'dw_cat'
         excl = None
@@ -112,8 +118,12 @@ def plan_rows(r, a, head, rows):
     return json.dumps(impl), json.dumps(mod)
 
 
-def unsupported_key(head):
+def unsupported_key(head, r=None):
     why = head.get('why', '')
+    if r is not None and r['spec']['opts'].get('mlp_res'):
+        # a residual sum with the flattened network input: outside the model's `supported` (a flatten-derived operand),
+        # but nothing of it can be pruned, so the real code must handle it: never one of the known unsupported classes
+        return None
     if 'add' in why or 'tcat' in why:
         return 'add-with-concat-operand'
     if 'dw' in why:
